@@ -16,8 +16,9 @@ from typing import Dict, Iterable, List, Optional, Set, Tuple
 from .model import Program, Unit, dotted, norm, walk_local
 
 EXTRA_ROLES = {
-    "EPSREL_SVD": {"epsrel", "_epsrel"},
-    "EPSREL_LIOUV": {"liouvillian_epsrel", "_liouvillian_epsrel"},
+    # `epsrel` denotes the SVD tolerance in the back ends but the quadrature tolerance in
+    # system.get_propagators(.., epsrel): one role, so only a mix-up with another role is judged
+    "EPSREL": {"epsrel", "_epsrel", "liouvillian_epsrel", "_liouvillian_epsrel"},
     "SUBDIV": {"subdiv_limit", "_subdiv_limit"},
     "DKMAX": {"dkmax", "_dkmax"},
 }
